@@ -94,7 +94,7 @@ def gen_cases(tier, seed):
         explicit = None
         if mode == 'explicit':
             explicit = r.sample(pool, r.randint(0, 3))
-        if r.random() < 0.1:
+        if r.random() < 0.16:
             # two resolvable pairs, every remaining index also on a remainder
             # tensor, and explicitly given targets that occur twice (a delta
             # between two of them must survive the delta evaluation)
@@ -116,8 +116,8 @@ def gen_cases(tier, seed):
             objs.append({'t': 'non', 'name': 'y', 'up': [c, d]})
             terms = [{'pref': r.choice(['1', '-1', '1/2']), 'objs': objs}]
             mode = 'explicit'
-            explicit = r.choice([[c, d], [a, b], [a], [c, d, a], [],
-                                 [x], [x, a], [y, c, d]])
+            explicit = r.choice([[c, d], [a, b], [c, d], [a, b], [a],
+                                 [c, d, a], [], [x], [x, a], [y, c, d]])
             explicit = list(dict.fromkeys(explicit))
             forced_pre = 'einstein' if x in explicit or y in explicit else None
         if r.random() < 0.08:
